@@ -1161,6 +1161,7 @@ class VCGen:
                     k, _ = s.ev(e.args[1], st)
                     return Ty.S(td).val(d)[k], td.a[1]
                 if nm in LEMMAS:
+                    s.cur.setdefault('_lemmas_used', set()).add(nm)
                     vs = [s.ev(a, st)[0] for a in e.args]
                     return LEMMAS[nm](*vs), BOOL
             if nm in SPEC and (s.specmode or SPEC[nm].get('code_ok')):
@@ -2280,16 +2281,29 @@ class VCGen:
             c, tc = s.ev(n.test, b)
             b.pc.append(s.truthy(c, tc, b))
         var0 = None
-        if sp.get('decreases'):
+        cnt_head = cnt if (dom is not None and dom.get('dyn')) else None
+
+        def variant_terms(state):
+            """the variant as a list of integer terms (lexicographic order); a real-valued variant keeps its legacy form"""
+            dec = sp['decreases']
             sv_pol, sv_mode = s.pol, s.specmode
             s.pol, s.specmode = 0, True
             try:
-                var0, vt = s.ev(s.parse(sp['decreases']), b)
+                return [s.ev(s.parse(d), state) for d in (dec if isinstance(dec, (list, tuple)) else [dec])]
             finally:
                 s.pol, s.specmode = sv_pol, sv_mode
+        if sp.get('decreases'):
+            var0 = variant_terms(b)
+            vt = var0[0][1]
         s.run_ghosts(sp, b, 'ghost_pre')
         for k, h in enumerate(sp.get('hint_pre', [])):
-            s.hint(b, h, f'hint-pre#L{ordn}.{k}', n.lineno)
+            extra = []
+            for u in sp.get('use_hint_pre', {}).get(k, []):     # lemma instances visible to this hint only
+                t2 = b.clone()
+                s.use_lemma(t2, u)
+                extra += t2.pc[len(b.pc):]
+            s.oblige(b, f'hint-pre#L{ordn}.{k}', s.spec_eval(h, b, 1), n.lineno, 'hint', extra=extra)
+            b.pc.append(s.spec_eval(h, b, -1))
         broke = []
         for t in s.block(n.body, b):
             jump = t.env.pop('__jump', (None, None))[0]
@@ -2306,13 +2320,32 @@ class VCGen:
             t.env[iv] = (i + 1, INT)
             inv_assert(t, 'inv-step', n.lineno, use if isinstance(use, dict) else None)
             if var0 is not None:
-                sv_pol, sv_mode = s.pol, s.specmode
-                s.pol, s.specmode = 0, True
-                try:
-                    var1, _ = s.ev(s.parse(sp['decreases']), t)
-                finally:
-                    s.pol, s.specmode = sv_pol, sv_mode
-                s.oblige(t, f'variant#L{ordn}', And(var0 >= 0, var1 < var0) if vt == INT else And(var0 >= 0, var1 <= var0 - s.ev(s.parse(sp['decreases_by']), t)[0]), n.lineno, 'variant')
+                var1 = variant_terms(t)
+                if vt == INT:
+                    # well-founded lexicographic order on tuples of naturals: every component is >= 0 at the loop head and the
+                    # tuple decreases strictly over every iteration AFTER WHICH THE LOOP CONTINUES (the last iteration need not)
+                    dec = BoolVal(False)
+                    for (a1, _), (a0, _) in reversed(list(zip(var1, var0))):
+                        dec = Or(a1 < a0, And(a1 == a0, dec))
+                    goal = And(*[a0 >= 0 for a0, _ in var0], dec)
+                    if dom is None:
+                        t2 = t.clone()
+                        c2, tc2 = s.ev(n.test, t2)
+                        cont = s.truthy(c2, tc2, t2)
+                        goal = And(*[a0 >= 0 for a0, _ in var0], Implies(cont, dec))
+                else:
+                    t2 = t
+                    goal = And(var0[0][0] >= 0, var1[0][0] <= var0[0][0] - s.ev(s.parse(sp['decreases_by']), t)[0])
+                tv = t2 if dom is None else t
+                extra = []
+                for u in sp.get('use_variant', []):     # lemma instances visible to the variant obligation only
+                    t3 = tv.clone()
+                    s.use_lemma(t3, u)
+                    extra += t3.pc[len(tv.pc):]
+                s.oblige(tv, f'variant#L{ordn}', goal, n.lineno, 'variant', extra=extra)
+            if cnt_head is not None:
+                # a for loop over a list the body might change terminates if the list does not grow
+                s.oblige(t, f'variant-for#L{ordn}', dom['dyn'](t) <= cnt_head, n.lineno, 'variant')
         # exit
         if dom is not None:
             cnt = dom['dyn'](a) if dom.get('dyn') else dom['count']
@@ -2814,7 +2847,8 @@ class VCGen:
         if c.get('cut_before_assign') and not c.get('_cut_reached'):
             raise ContractError(f'{qual}: the assignment to {c["cut_before_assign"]!r} that ends the contracted prefix was not found')
         info = dict(name=qual, src_hash=sha(mod.segment(fn)), contract_hash=sha(repr(sorted((k, repr(v)) for k, v in s.contracts[qual].items() if not k.startswith('_') and not callable(v)))),
-                    lines=(fn.lineno, fn.end_lineno), n=len(s.obligs) - n0, locals_order=c.get('_locals_order', []), aliases=c.get('_alias', {}))
+                    lines=(fn.lineno, fn.end_lineno), n=len(s.obligs) - n0, locals_order=c.get('_locals_order', []), aliases=c.get('_alias', {}),
+                    lemmas_used=sorted(c.get('_lemmas_used', ())))
         return s.obligs[n0:], info
 
 
